@@ -293,6 +293,18 @@ func ConfigureEmittedWorld(w *World) {
 			e.Assumed["the package-level hook LogError is not set to nil"] = true
 			return not(eq(val, "0"))
 		}
+		// a package variable holding the bytes of a constant string, assigned once
+		// in the initialiser (specFileBs)
+		if _, isSl := g.Type().Underlying().(*types.Pointer).Elem().Underlying().(*types.Slice); isSl {
+			if text, ok := initBytesOfConst(g); ok {
+				e.needProjections()
+				f := e.D.UF("bytes_of_str", []string{"Str"}, "Slice")
+				e.D.Axiom("bytes_of_str", "(forall ((s Str)) (! (and (= (sl_len (bytes_of_str s)) (slen s)) (= (sl_off (bytes_of_str s)) 0) (>= (sl_cap (bytes_of_str s)) (slen s)) (> (sl_base (bytes_of_str s)) 0)) :pattern ((bytes_of_str s))))")
+				e.D.Axiom("slice_text", "(forall ((s Str)) (! (= (slice_text (bytes_of_str s)) s) :pattern ((bytes_of_str s))))")
+				e.Assumed["a package variable assigned once, in the package initialiser, []byte(<constant>) holds those bytes (nothing writes package-level state afterwards: C20; the bytes of a []byte made from a constant are not modified)"] = true
+				return eq(val, sx(f, e.D.Lit(text)))
+			}
+		}
 		return ""
 	}
 	w.DynResultFact = func(e *FuncEnc, name string, results []string, rts []types.Type) string {
